@@ -1,0 +1,73 @@
+//go:build verif
+
+package bpmn
+
+import (
+	"sort"
+	"strconv"
+
+	"github.com/olive-io/bpmn/schema"
+	"github.com/olive-io/bpmn/v2/pkg/id"
+)
+
+type verifFlowId int
+
+func (v verifFlowId) Bytes() []byte  { return []byte(strconv.Itoa(int(v))) }
+func (v verifFlowId) String() string { return strconv.Itoa(int(v)) }
+
+// VerifTrackerEv is one trace as the inclusive gateway's flow tracker sees it.
+type VerifTrackerEv struct {
+	Term    bool     // TerminationTrace of flow Tok; otherwise a FlowTrace
+	Tok     int      // Term: the flow that ended
+	Src     string   // FlowTrace: id of the source node …
+	SrcIncl bool     // … which is an inclusive gateway
+	Toks    []int    // … the flows it lists
+	Dsts    []string // … and the target node of the sequence flow each of them is on
+}
+
+// VerifTrackerRun feeds evs, one after the other, to a fresh flow tracker of the inclusive gateway gw (the real
+// handleTrace, without goroutines or a tracer) and returns, after each event, whether the tracker has seen a flow
+// into gw and the cohort (activeFlowsInCohort, sorted) of each flow in query.
+func VerifTrackerRun(gw string, evs []VerifTrackerEv, query []int) (reached []bool, cohorts [][][]int) {
+	el := schema.DefaultInclusiveGateway()
+	el.SetId(&gw)
+	tracker := &flowTracker{flows: make(map[id.Id]schema.Id), element: &el}
+	r := false
+	for _, ev := range evs {
+		if ev.Term {
+			_, _, r = tracker.handleTrace(true, TerminationTrace{FlowId: verifFlowId(ev.Tok)}, false, r)
+		} else {
+			var src schema.FlowNodeInterface
+			sid := ev.Src
+			if ev.SrcIncl {
+				g := schema.DefaultInclusiveGateway()
+				g.SetId(&sid)
+				src = &g
+			} else {
+				t := schema.DefaultTask()
+				t.SetId(&sid)
+				src = &t
+			}
+			snaps := make([]Snapshot, len(ev.Toks))
+			for i, tok := range ev.Toks {
+				sf := schema.DefaultSequenceFlow()
+				dst := schema.IdRef(ev.Dsts[i])
+				sf.SetTargetRef(dst)
+				snaps[i] = Snapshot{flowId: verifFlowId(tok), sequenceFlow: NewSequenceFlow(&sf, nil)}
+			}
+			_, _, r = tracker.handleTrace(true, FlowTrace{Source: src, Flows: snaps}, false, r)
+		}
+		reached = append(reached, r)
+		var cs [][]int
+		for _, q := range query {
+			var c []int
+			for _, f := range tracker.activeFlowsInCohort(verifFlowId(q)) {
+				c = append(c, int(f.(verifFlowId)))
+			}
+			sort.Ints(c)
+			cs = append(cs, c)
+		}
+		cohorts = append(cohorts, cs)
+	}
+	return
+}
